@@ -152,3 +152,16 @@ def run_driver(binary, driver, args=(), shards=None, timeout=1500, env=None, fun
     res["violation_count"] = len(res["violations"])
     res["violations"] = list(seen.values())
     return res
+
+
+def replay_run(name, args, build_kwargs=None, timeout=120):
+    """Run a driver in replay mode on the real g++-compiled code. Returns (reproduced, text)."""
+    b = build(name, **(build_kwargs or {}))
+    p = subprocess.run([b] + [str(a) for a in args], stdout=subprocess.PIPE, stderr=subprocess.STDOUT, text=True,
+                       errors="replace", timeout=timeout)
+    out = p.stdout.strip()[-1500:]
+    if p.returncode == 1 and "REPLAY-FAIL" in out:
+        return True, out
+    if p.returncode == 0:
+        return False, "native replay of the verifier's inputs does NOT fail on the real code: " + out
+    return True, "native replay terminated abnormally (exit %s): %s" % (p.returncode, out)
